@@ -25,6 +25,11 @@ type C11Case struct {
 	Mode    int   `json:"mode"`     // 0 deletion timestamp, 1 pause, 2 pause and - from op LowerAt on - a deletion timestamp as well
 	RaiseAt int   `json:"raise_at"` // the flag is raised before op RaiseAt
 	LowerAt int   `json:"lower_at"` // pause only: lowered before op LowerAt (>= RaiseAt)
+	// MidPause (mode 1 only, replaces the twin comparison): the pause is not raised between two ops but lands - API and
+	// set cache - before the k-th API call of a reconcile whose status write then meets a conflict
+	MidPause int `json:"mid_pause,omitempty"`
+	// Ahead: the deletion timestamp lies ahead of the controller's wall clock (clock skew / grace period)
+	Ahead bool `json:"ahead,omitempty"`
 }
 
 func (c C11Case) Summary() interface{} {
@@ -47,6 +52,10 @@ func genC11(rt *rapid.T) C11Case {
 		at := rapid.IntRange(0, len(c.W.Ops)).Draw(rt, "relabelAt")
 		op := Op{K: OpRelabelPod, A: rapid.IntRange(0, 20).Draw(rt, "relabelPod")}
 		c.W.Ops = append(c.W.Ops[:at], append([]Op{op}, c.W.Ops[at:]...)...)
+	}
+	c.Ahead = rapid.IntRange(0, 2).Draw(rt, "tsAhead") == 0
+	if c.Mode == 1 && rapid.IntRange(0, 4).Draw(rt, "midPause") == 0 {
+		c.MidPause = rapid.IntRange(1, 12).Draw(rt, "midPauseAt")
 	}
 	n := len(c.W.Ops)
 	c.RaiseAt = rapid.IntRange(0, n).Draw(rt, "raiseAt")
@@ -73,6 +82,23 @@ func monC11(rep Rep, v *View) (flagged bool) {
 			}
 		}
 		return true
+	}
+	// the reconcile started before the pause was visible, but looked its set up in the cache again later and got the
+	// paused version: from then on only the status write it was in the middle of (and the history trim behind it) may still go out
+	for _, sr := range v.Rec.SetReads {
+		if !sr.Found || !sr.Paused {
+			continue
+		}
+		for i, a := range v.Rec.Actions {
+			// what an in-flight reconcile still has ahead of it after its status write was retried: that write itself
+			// and the history trim that follows it
+			tail := (a.Resource == "statefulsets" && a.Subresource == "status") || (a.Resource == "controllerrevisions" && a.Verb == "delete")
+			if i >= sr.AfterCalls && a.IsWrite() && !tail {
+				rep.Violate("pause/write-after-reading-paused-set", "after %d calls the reconcile read the paused set (rv %s) from its cache and then still issued %s%s", sr.AfterCalls, sr.ResourceVersion, a, ctx(v))
+			}
+		}
+		flagged = true
+		break
 	}
 	if !v.Deleting {
 		return flagged
@@ -204,6 +230,17 @@ func runC11(rep Rep, c C11Case) {
 		wouldWrite = len(r.Writes()) > 0
 		probe.Close()
 	}
+	if c.Mode == 1 && c.MidPause > 0 {
+		// no twin here: one reconcile during which the pause lands and whose status write meets a conflict
+		s.Reconcile(&Op{K: OpReconcile, InterAt: c.MidPause, InterKind: OpPauseSeen, FaultAt: -1, Fault: FConflict})
+		s.Reconcile(&Op{K: OpReconcile})
+		rep.FP(worldFPAny(c))
+		rep.Label("pause:lands-mid-reconcile")
+		if wouldWrite {
+			rep.Nontrivial()
+		}
+		return
+	}
 	var twin *Sys
 	if c.Mode == 1 {
 		twin = s.cloneSys()
@@ -213,7 +250,7 @@ func runC11(rep Rep, c C11Case) {
 		s.C.UpdateSet(NS, s.Name, func(x *asv1.StatefulSet) { helper.SetPausedReconcile(x, true) })
 		s.logf("user: pause raised")
 	} else {
-		s.C.MarkSetDeleting(NS, s.Name)
+		s.C.MarkSetDeletingAt(NS, s.Name, c.Ahead)
 		s.logf("user: set deletion timestamp raised")
 	}
 	end := len(ops)
@@ -222,13 +259,13 @@ func runC11(rep Rep, c C11Case) {
 	}
 	for i := c.RaiseAt; i < end; i++ {
 		if c.Mode == 2 && i == c.LowerAt {
-			s.C.MarkSetDeleting(NS, s.Name)
+			s.C.MarkSetDeletingAt(NS, s.Name, c.Ahead)
 			s.logf("user: set deletion timestamp raised (still paused)")
 		}
 		s.Run(&ops[i])
 	}
 	if c.Mode == 2 && c.LowerAt >= end {
-		s.C.MarkSetDeleting(NS, s.Name)
+		s.C.MarkSetDeletingAt(NS, s.Name, c.Ahead)
 		s.logf("user: set deletion timestamp raised (still paused)")
 	}
 	// one reconcile with fresh caches while the flag is certainly visible
